@@ -19,6 +19,7 @@ package main
 import (
 	"fmt"
 	"go/token"
+	"go/types"
 	"strings"
 
 	"golang.org/x/tools/go/packages"
@@ -71,6 +72,111 @@ func isConstFalse(v ssa.Value) bool {
 	return ok && c.Value != nil && c.Value.String() == "false"
 }
 
+// unguardedReturn: the position of a return of anything but false that is not
+// dominated by InBounds(...) == true; "" when there is none.
+func (c *Ctx) unguardedReturn(fn *ssa.Function) string {
+	bad := ""
+	for _, b := range fn.Blocks {
+		ret, ok := b.Instrs[len(b.Instrs)-1].(*ssa.Return)
+		if !ok || len(ret.Results) != 1 {
+			continue
+		}
+		r := ret.Results[0]
+		if isConstFalse(r) {
+			continue
+		}
+		if inBoundsTrueAt(b, nil) {
+			continue
+		}
+		if phi, ok := r.(*ssa.Phi); ok && phi.Block() == b {
+			allOK := true
+			for i, e := range phi.Edges {
+				pred := b.Preds[i]
+				if isConstFalse(e) || inBoundsTrueAt(pred, edgeFact(pred, b)) {
+					continue
+				}
+				allOK = false
+			}
+			if allOK {
+				continue
+			}
+		}
+		bad = c.pos(ret.Pos())
+	}
+	return bad
+}
+
+// runWarpGuard (GD.WARP): a Contains method whose type inherits Min/Max from
+// an embedded field (promoted methods: the box is the inner object's box,
+// unchanged) and that asks that same field's Contains about a point other than
+// its own argument answers for a remapped point with an unmapped box; it has to
+// test InBounds(receiver, point) first. Found by shape, not by name.
+func (c *Ctx) runWarpGuard(rule string, pkgs []*packages.Package) {
+	for _, p := range pkgs {
+		if p == nil {
+			continue
+		}
+		for _, fn := range c.srcFuncs(p) {
+			if fn.Name() != "Contains" || fn.Signature.Recv() == nil || len(fn.Params) != 2 || !isCoordType(fn.Params[1].Type()) {
+				continue
+			}
+			recvT := fn.Signature.Recv().Type()
+			sel := types.NewMethodSet(recvT).Lookup(fn.Pkg.Pkg, "Min")
+			if sel == nil {
+				if pt, ok := recvT.(*types.Pointer); !ok {
+					sel = types.NewMethodSet(types.NewPointer(recvT)).Lookup(fn.Pkg.Pkg, "Min")
+				} else {
+					_ = pt
+				}
+			}
+			if sel == nil || len(sel.Index()) < 2 {
+				continue // own Min method: the type computes its own box
+			}
+			field := sel.Index()[0]
+			remapped := token.NoPos
+			for _, b := range fn.Blocks {
+				for _, ins := range b.Instrs {
+					call, ok := ins.(*ssa.Call)
+					if !ok || len(call.Call.Args) == 0 {
+						continue
+					}
+					var recv, arg ssa.Value
+					if call.Call.IsInvoke() {
+						if call.Call.Method.Name() != "Contains" || len(call.Call.Args) != 1 {
+							continue
+						}
+						recv, arg = call.Call.Value, call.Call.Args[0]
+					} else if f := call.Call.StaticCallee(); f != nil && f.Name() == "Contains" && f.Signature.Recv() != nil && len(call.Call.Args) == 2 {
+						recv, arg = call.Call.Args[0], call.Call.Args[1]
+					} else {
+						continue
+					}
+					if un, ok := recv.(*ssa.UnOp); ok && un.Op == token.MUL {
+						recv = un.X
+					}
+					fa, ok := recv.(*ssa.FieldAddr)
+					if !ok || fa.Field != field || fa.X != fn.Params[0] {
+						continue
+					}
+					if arg != fn.Params[1] {
+						remapped = call.Pos()
+					}
+				}
+			}
+			if remapped == token.NoPos {
+				continue
+			}
+			c.analysed(qname(fn))
+			key := qname(fn) + " remapped query under an inherited box"
+			if bad := c.unguardedReturn(fn); bad == "" {
+				c.ok(rule, key, fn.Pos(), "the embedded object is asked about a remapped point and every non-false result is dominated by InBounds(receiver, point)")
+			} else {
+				c.bad(rule, key, remapped, "the embedded object, whose box this type reports unchanged, is asked about a remapped point, and the result returned at "+bad+" is not guarded by InBounds(receiver, point): a point outside the reported box can be contained")
+			}
+		}
+	}
+}
+
 func (c *Ctx) runGuardDominance(prefix string) {
 	// GD.INB
 	for _, req := range inBoundsRequired {
@@ -81,34 +187,7 @@ func (c *Ctx) runGuardDominance(prefix string) {
 		}
 		c.analysed(qname(fn))
 		key := fmt.Sprintf("%s.%s.Contains guarded by InBounds", req.pkg, req.typ)
-		bad := ""
-		for _, b := range fn.Blocks {
-			ret, ok := b.Instrs[len(b.Instrs)-1].(*ssa.Return)
-			if !ok || len(ret.Results) != 1 {
-				continue
-			}
-			r := ret.Results[0]
-			if isConstFalse(r) {
-				continue
-			}
-			if inBoundsTrueAt(b, nil) {
-				continue
-			}
-			if phi, ok := r.(*ssa.Phi); ok && phi.Block() == b {
-				allOK := true
-				for i, e := range phi.Edges {
-					pred := b.Preds[i]
-					if isConstFalse(e) || inBoundsTrueAt(pred, edgeFact(pred, b)) {
-						continue
-					}
-					allOK = false
-				}
-				if allOK {
-					continue
-				}
-			}
-			bad = c.pos(ret.Pos())
-		}
+		bad := c.unguardedReturn(fn)
 		if bad == "" {
 			c.ok(prefix+".INB", key, fn.Pos(), "every non-false result is dominated by InBounds(receiver, point) == true ("+req.why+")")
 		} else {
